@@ -66,7 +66,9 @@ void gen_c07_case(Tape &t, Case &c) {
   for (int i = 0; i < m.m(); i++) m.rows[i].name = "r" + std::to_string(i);
   c.add_model(m);
   c.ops.push_back(Op("route").I(t.below(R_NROUTES)));
-  c.ops.push_back(Op("state").I(t.below(4)).I(t.below(3)));      // lifecycle state, solver used to reach it
+  // lifecycle state (bit 2 set: first grown, name by name, past 100 columns and rows, where the name tables
+  // re-hash), solver used to reach it
+  c.ops.push_back(Op("state").I(t.below(4) + (t.chance(1, 5) ? 4 : 0)).I(t.below(3)).I(t.below(3)));
   Op b("bad");
   b.I(t.below(F_NFUNCS)).I(t.below(B_NBND)).I(t.below(3));        // function, boundary value, position in a list
   c.ops.push_back(b);
@@ -123,6 +125,8 @@ int do_bad_call(mpq_QSprob p, const Model &m, int fn, int bnd, int pos, std::str
   auto collist = [&](int bad) { std::vector<int> l = {0, 1 % n, 0}; l[2] = n > 2 ? 2 : 0; if (n <= 2) l.resize(2); l[pos % (int)l.size()] = bad; return l; };
   const char *unknown = bnd % 2 ? "no_such_name" : "";
   std::string dupcol = m.cols[pos % n].name, duprow = m.rows[pos % mm].name;
+  if (n > 100) dupcol = m.cols[pos % 3 == 0 ? 100 : (pos % 3 == 1 ? n - 1 : 0)].name;     // the name whose registration made the table grow
+  if (mm > 100) duprow = m.rows[pos % 3 == 0 ? 100 : (pos % 3 == 1 ? mm - 1 : 0)].name;
   char badsense = bnd % 2 ? 'X' : (char)1;
   char badlu = bnd % 2 ? 'X' : 'l';
   desc = strprintf("%s boundary=%s pos=%d", fn_name[fn], bnd_name[bnd], pos);
@@ -333,9 +337,28 @@ void c07_run(const Case &c, Result &r) {
   if (pos < c.ops.size() && c.ops[pos].k == "state") { state = (int)c.ops[pos].i[0]; solver = c.ops[pos].i.size() > 1 ? (int)c.ops[pos].i[1] : 0; pos++; }
   if (pos >= c.ops.size() || c.ops[pos].k != "bad" || c.ops[pos].i.size() < 3) { r.verdict = DISCARD; return; }
   int fn = (int)c.ops[pos].i[0] % F_NFUNCS, bnd = (int)c.ops[pos].i[1] % B_NBND, lpos = (int)c.ops[pos].i[2];
+  int extra = pos >= 1 && c.ops[pos - 1].k == "state" && c.ops[pos - 1].i.size() > 2 ? (int)c.ops[pos - 1].i[2] % 3 : 0;
+  bool grown = (state & 4) != 0;
+  state &= 3;
   std::string why;
   mpq_QSprob p = sut_build(m, route, &why);
   if (!p) { r.fail("build:" + why, why); return; }
+  if (grown) {
+    // one name at a time, so that the 101st registration is the one that makes the table grow
+    Q zero(0), one(1);
+    int wantc = 101 + extra, wantr = 101 + (extra + 1) % 3;
+    while (m.n() < wantc) {
+      Col cc; cc.name = "gc" + std::to_string(m.n()); cc.lo = 0; cc.up = 1; cc.obj = 0;
+      if (mpq_QSnew_col(p, zero.get_mpq_t(), zero.get_mpq_t(), one.get_mpq_t(), cc.name.c_str())) { r.fail("build:grow", "QSnew_col failed while growing"); mpq_QSfree_prob(p); return; }
+      m.cols.push_back(cc);
+    }
+    while (m.m() < wantr) {
+      Row rr; rr.name = "gr" + std::to_string(m.m()); rr.sense = 'L'; rr.rhs = 1;
+      if (mpq_QSnew_row(p, one.get_mpq_t(), 'L', rr.name.c_str())) { r.fail("build:grow", "QSnew_row failed while growing"); mpq_QSfree_prob(p); return; }
+      m.rows.push_back(rr);
+    }
+    r.label("grown:>100-names");
+  }
   // lifecycle: 0 freshly loaded, 1 loaded + parameters set, 2 solved (basis, cache, factor), 3 edited after solve
   static const char *stn[] = {"loaded", "loaded+params", "solved", "edited-after-solve"};
   if (state >= 1) { mpq_QSset_param(p, QS_PARAM_SIMPLEX_MAX_ITERATIONS, 500); }
@@ -398,7 +421,7 @@ void c07_run(const Case &c, Result &r) {
   }
   mpq_QSfree_prob(p);
   r.nontrivial = true;
-  r.canon = strprintf("%d/%d/%d/%d", fn, bnd, lpos % 3, state);
+  r.canon = strprintf("%d/%d/%d/%d/%d", fn, bnd, lpos % 3, state, (int)grown);
   r.sample = desc + " state=" + stn[state & 3] + "\n" + c.str().substr(0, 800);
 }
 
